@@ -35,6 +35,7 @@ static void loadConfig(const json::Object &o) {
   if (auto v = o.getInteger("frameForkWiden")) CFG.frameForkWiden = (int)*v;
   if (auto v = o.getInteger("ptrWidenAfter")) CFG.ptrWidenAfter = (int)*v;
   if (auto v = o.getInteger("longLoop")) CFG.longLoop = (int)*v;
+  if (auto v = o.getInteger("forkyLoop")) CFG.forkyLoop = (int)*v;
   if (auto v = o.getInteger("fmtForkMax")) CFG.fmtForkMax = *v;
   if (auto v = o.getString("reportRegion")) CFG.reportRegion = v->str();
   if (auto v = o.getInteger("reportLimit")) CFG.reportLimit = *v;
@@ -107,11 +108,11 @@ static bool setupCell(const json::Object &cell, State &S, std::string &err) {
         R.isString = true; R.readonly = true;
         bool hasTail = ro.getBoolean("tail").getValueOr(false);
         for (char c : head) D.bytes.push_back(constCell((uint8_t)c, prov));
-        if (!hasTail) { D.bytes.push_back(constCell(0, prov)); R.sizeLo = R.sizeHi = (i128)head.size() + 1; D.rest = constCell(0, prov); R.isString = false; R.readonly = true; }
+        if (auto hs = ro.getArray("headsets"))
+          for (auto &h : *hs) { std::string hx = h.getAsString()->str(); ByteCell c; c.cs.reset(); c.prov = prov; for (int b = 0; b < 32 && (size_t)(2 * b + 1) < hx.size(); b++) { unsigned v = (unsigned)std::stoi(hx.substr(2 * b, 2), nullptr, 16); for (int i = 0; i < 8; i++) if (v & (1u << i)) c.cs.set(b * 8 + i); } D.bytes.push_back(c); }
+        if (!hasTail) { size_t n = D.bytes.size(); D.bytes.push_back(constCell(0, prov)); R.sizeLo = R.sizeHi = (i128)n + 1; D.rest = constCell(0, prov); R.isString = false; R.readonly = true; }
         else {
           // unknown continuation: tracked tail cells of the given set (may contain NUL), exact length optionally tied to a root
-          if (auto hs = ro.getArray("headsets"))
-            for (auto &h : *hs) { std::string hx = h.getAsString()->str(); ByteCell c; c.cs.reset(); c.prov = prov; for (int b = 0; b < 32 && (size_t)(2 * b + 1) < hx.size(); b++) { unsigned v = (unsigned)std::stoi(hx.substr(2 * b, 2), nullptr, 16); for (int i = 0; i < 8; i++) if (v & (1u << i)) c.cs.set(b * 8 + i); } D.bytes.push_back(c); }
           int64_t ntail = ro.getInteger("tailtrack").getValueOr(0);
           for (int64_t i = 0; i < ntail; i++) D.bytes.push_back(tail);
           R.sizeLo = (i128)head.size() + 1; R.sizeHi = (i128)1 << 40;
@@ -160,6 +161,7 @@ static std::string pathRecord(State &S, std::map<std::string, int> &setTable, st
   if (!S.errnoSet) o += "null";
   else if (S.errnoVal.k == Val::INT && !S.errnoVal.r.isFullSet()) o += "[" + i128s((i128)S.errnoVal.r.getSignedMin().getSExtValue()) + "," + i128s((i128)S.errnoVal.r.getSignedMax().getSExtValue()) + "]";
   else o += "\"any\"";
+  o += ",\"errno_at\":" + jstr(S.errnoAt);
   o += ",\"alarms\":[";
   for (size_t i = 0; i < S.alarms.size(); i++) { auto &a = S.alarms[i]; if (i) o += ","; o += "{\"kind\":" + jstr(a.kind) + ",\"fn\":" + jstr(a.fn) + ",\"line\":" + std::to_string(a.line) + ",\"msg\":" + jstr(a.msg) + "}"; }
   o += "],\"nW\":" + std::to_string(S.nW) + ",\"nR\":" + std::to_string(S.nR) + ",\"nIdx\":" + std::to_string(S.nIdx) + ",\"steps\":" + std::to_string(S.steps) + ",\"wrote\":" + (S.wroteReport ? "true" : "false");
